@@ -642,6 +642,12 @@ def apply_msg_mutation(msg, mut, rng):
         comp = bomb_payload(n_mb)
         body = u16(1) + u24(declared) + u24(len(comp)) + comp
         return [RawMsg(22, hs_wrap(25, body))], 'hs25:cert-bomb(%dMB->%dB,declared=%d)' % (n_mb, len(comp), declared)
+    if name == 'set-prefix' and ct == 22 and len(data) >= 4:
+        # overwrite the first bytes of the handshake body with the given value (targeted value-level mutation)
+        pre = bytes.fromhex(mut[1])
+        body = bytearray(data[4:])
+        body[:len(pre)] = pre
+        return [RawMsg(22, hs_wrap(data[0], body))], 'hs%d:set-prefix:%s' % (data[0], mut[1])
     if name == 'ec-x-plus-p' and ct == 22 and len(data) >= 8 and data[0] in (12, 16):
         # an uncompressed EC point whose x coordinate is replaced by x + p (not reduced, still fits the field size)
         import ecdsa
@@ -974,6 +980,24 @@ def second_step_cases(rng, profiles, quick):
                 out.append(dict(flavour=fi, role=role, seed=rng.randrange(1 << 30), level='msg', mut=('x:' + m, idx),
                                 phase='hs', target=target, tsel=0.0, mem=False, second_step=True,
                                 base=dict(calls=base.get('calls', 0), peak=base.get('peak', 0))))
+    return out
+
+
+def cv_scheme_cases(rng, profiles):
+    """server CertificateVerify (TLS 1.3) whose signature scheme is not a SignatureScheme value: hash byte
+    'none' (0), unknown hash (99, 255), intrinsic hash with unknown algorithm, sha1 with unknown algorithm"""
+    names = [f['name'] for f in get_flavours()]
+    out = []
+    for fname in ('tls13-ecdsa', 'tls13-rsa'):
+        fi = names.index(fname)
+        base, pts = profiles[(fi, 'client')]
+        hit = [p for p in pts if p[0] == 'msg' and p[2] == 22 and p[3] == 15]
+        if not hit:
+            continue
+        for pre in ('0003', '0001', '6303', 'ffff', '0863', '0263', '0000'):
+            out.append(dict(flavour=fi, role='client', seed=rng.randrange(1 << 30), level='msg', mut=('set-prefix', pre),
+                            phase='hs', target=hit[0][1], tsel=0.0, mem=False,
+                            base=dict(calls=base.get('calls', 0), peak=base.get('peak', 0))))
     return out
 
 
